@@ -161,9 +161,10 @@ def pairwiseB {α : Type} (r : α → α → Bool) : List α → Bool
 /-- the net list is what elaboration leaves: the members of a net are the connected component of its writer, the writers
 of different nets are not connected, every signal that occurs in a statement is in the component of some writer -/
 def netsOkB (H : Hier) : Bool :=
-  H.nets.all (fun n => PV.Nets.sortDedup n.2 == PV.Nets.netOf H.edges n.1) &&
-  pairwiseB (fun a b => !decide (b.1 ∈ PV.Nets.netOf H.edges a.1)) H.nets &&
-  H.edges.all (fun e => H.nets.any (fun n => decide (e.1 ∈ PV.Nets.netOf H.edges n.1)))
+  let cs := H.nets.map (fun n => (n, PV.Nets.netOf H.edges n.1))      -- each component computed once
+  cs.all (fun c => PV.Nets.sortDedup c.1.2 == c.2) &&
+  pairwiseB (fun a b => !decide (b.1.1 ∈ a.2)) cs &&
+  H.edges.all (fun e => cs.any (fun c => decide (e.1 ∈ c.2)))
 
 /-- ids in range, `None` is its own parent, nothing is hosted by `None`, no statement is executed by `None` -/
 def Hier.wf (H : Hier) : Bool :=
